@@ -1,83 +1,100 @@
 """C20 - Python predicates are interchangeable with compiled ones."""
-from .. import common, gen, scen, src as S, real as R, progcheck
+from .. import common, gen, scen, src as S, real as R, progcheck, par
 from ..frame import Check
 from ..common import Sym
 PROP = 'C20'
 
 
 def knobs(rnd):
-    return gen.Knobs(cut=rnd.random() < 0.4, ctrl=rnd.random() < 0.6, eq=True, meta=rnd.random() < 0.4,
+    return gen.Knobs(cut=rnd.random() < 0.4, ctrl=rnd.random() < 0.6, eq=True, meta=rnd.random() < 0.6,
                      max_body=4, n_rules=(2, 3), n_facts=(2, 4), db=False)
 
 
+def case(rep, drv, rnd, i, tier):
+    g = gen.ProgGen(rnd, knobs(rnd))
+    prog = g.program()
+    qs = g.queries(3)
+    factpreds = sorted({(c[0], len(c[1])) for c in prog if c[0].startswith('f')})
+    if not factpreds:
+        return
+    subset = [p for p in factpreds if rnd.random() < 0.6] or [rnd.choice(factpreds)]
+    rest = [c for c in prog if (c[0], len(c[1])) not in subset]
+    # meta-calls on the replaced predicates straight from the API
+    metaq = []
+    for (name, arity) in subset:
+        vs = [[Sym('v'), 50 + k] for k in range(arity)]
+        goal = [Sym('f'), name] + vs if arity else [Sym('a'), name]
+        metaq.append(('call', [goal]))
+        metaq.append(('findall', [[Sym('f'), 't'] + vs, goal, [Sym('v'), 60]]))
+        if arity >= 1:
+            metaq.append(('call', [[Sym('f'), name] + vs[:-1] if arity > 1 else [Sym('a'), name], vs[-1]]))
+    queries = qs + metaq
+    ops_all = [('load', 'overwrite', prog)] + [('query', n_, ('all',), a) for n_, a in queries]
+    ops_py = [('load', 'overwrite', rest)]
+    # the predicates are called before any function is registered for them (nothing there yet)
+    pre = [('query', n_, ('all',), a) for n_, a in queries] if rnd.random() < 0.5 else []
+    dyn = None
+    if rnd.random() < 0.3:
+        name, arity = rnd.choice(subset)
+        dyn = ('assert', name, 'z', [gen.mterm_ground(rnd, 1) for _ in range(arity)])
+        ops_all.insert(1, dyn)
+        ops_py.append(dyn)
+        rep.count('with-dynamic-facts')
+    ops_py += pre
+    raise_case = rnd.random() < 0.25
+    for (name, arity) in subset:
+        rows = [progcheck.source_to_model_row(c[1]) for c in prog if (c[0], len(c[1])) == (name, arity)]
+        style = rnd.choice(['explicit', 'inferred', 'variadic'])
+        yv = rnd.choice([True, False])
+        raise_at = rnd.randint(0, len(rows)) if raise_case and rnd.random() < 0.5 else None
+        ops_py.append(('regpy', name, None if style == 'variadic' else arity, rows, raise_at, style, yv))
+        rep.count('style:' + style)
+        rep.count('yield:' + str(yv))
+        if raise_at is not None:
+            rep.count('python-predicate-raises')
+    ops_py += [('query', n_, ('all',), a) for n_, a in queries]
+    # (1) the python variant agrees with the model (reference + compiled) of the same history
+    v = scen.three_way(rep, drv, ops_py, 'case %d python variant' % i)
+    rep.count('programs')
+    # (2) ... and with the all-compiled program on the real engine, answer for answer
+    if v not in ('property', 'crash', 'skipped') and not any(op[0] == 'regpy' and op[4] is not None for op in ops_py):
+        ra, ea = scen.run_real(ops_all)
+        rp, ep = scen.run_real(ops_py)
+        if ea or ep:
+            rep.violation({'kind': 'real code raised', 'error': ea or ep, 'ops': scen.ops_json(ops_py)})
+        else:
+            nq = len(queries)
+            qa = [scen.norm(r) for r in ra[-nq:]]
+            qp = [scen.norm(r) for r in rp[-nq:]]
+            try:
+                cyc = drv.ask(R.scenario_model(ops_all, 'reference'))[1:]
+            except common.ModelTimeout:
+                return
+            qc = [scen.norm(r) for r in cyc[-nq:]]
+            for a, p_, c_ in zip(qa, qp, qc):
+                if 'cyclic' in c_ or 'oof' in c_:
+                    break
+                if a != p_:
+                    rep.violation({'kind': 'python predicate changes the answers', 'compiled': a, 'python': p_,
+                                   'ops': scen.ops_json(ops_py), 'ops_compiled': scen.ops_json(ops_all),
+                                   'prolog': [S.program_text(prog)]})
+                    break
+                if '(q ()' not in a:
+                    rep.nontriv(a + S.program_text(prog))
+    if i < 2:
+        rep.sample({'prolog': S.program_text(prog), 'python_predicates': [list(p) for p in subset]})
+
+
 def run(tier):
-    n = 200 if tier == 'quick' else 5000
+    n = 600 if tier == 'quick' else 12000
     with Check(PROP, tier) as chk:
-        rep = chk.rep
-        rnd = common.rng_for(PROP)
-        for i in range(n):
-            g = gen.ProgGen(rnd, knobs(rnd))
-            prog = g.program()
-            qs = g.queries(3)
-            factpreds = sorted({(c[0], len(c[1])) for c in prog if c[0].startswith('f')})
-            if not factpreds:
-                continue
-            subset = [p for p in factpreds if rnd.random() < 0.6] or [rnd.choice(factpreds)]
-            rest = [c for c in prog if (c[0], len(c[1])) not in subset]
-            ops_all = [('load', 'overwrite', prog)] + [('query', n_, ('all',), a) for n_, a in qs]
-            ops_py = [('load', 'overwrite', rest)]
-            raise_case = rnd.random() < 0.25
-            for (name, arity) in subset:
-                rows = [progcheck.source_to_model_row(c[1]) for c in prog if (c[0], len(c[1])) == (name, arity)]
-                style = rnd.choice(['explicit', 'inferred', 'variadic'])
-                yv = rnd.choice([True, False])
-                raise_at = rnd.randint(0, len(rows)) if raise_case and rnd.random() < 0.5 else None
-                ops_py.append(('regpy', name, None if style == 'variadic' else arity, rows, raise_at, style, yv))
-                rep.count('style:' + style)
-                rep.count('yield:' + str(yv))
-                if raise_at is not None:
-                    rep.count('python-predicate-raises')
-            # dynamic facts next to the python predicate
-            if rnd.random() < 0.3:
-                name, arity = rnd.choice(subset)
-                extra = ('assert', name, 'z', [gen.mterm_ground(rnd, 1) for _ in range(arity)])
-                ops_all.insert(1, extra)
-                ops_py.append(extra)
-                rep.count('with-dynamic-facts')
-            ops_py += [('query', n_, ('all',), a) for n_, a in qs]
-            # (1) the python variant agrees with the model (reference + compiled) of the same history
-            v = scen.three_way(rep, chk.drv, ops_py, 'case %d python variant' % i)
-            rep.count('programs')
-            # (2) ... and with the all-compiled program on the real engine, answer for answer
-            if v != 'property' and not any(op[0] == 'regpy' and op[4] is not None for op in ops_py):
-                ra, ea = scen.run_real(ops_all)
-                rp, ep = scen.run_real(ops_py)
-                if ea or ep:
-                    rep.violation({'kind': 'real code raised', 'error': ea or ep, 'ops': scen.ops_json(ops_py)})
-                else:
-                    qa = [scen.norm(r) for op, r in zip(ops_all, ra) if op[0] == 'query']
-                    qp = [scen.norm(r) for op, r in zip(ops_py, rp) if op[0] == 'query']
-                    cyc = chk.drv.ask(R.scenario_model(ops_all, 'reference'))[1:]
-                    qc = [scen.norm(r) for op, r in zip(ops_all, cyc) if op[0] == 'query']
-                    for a, p_, c_ in zip(qa, qp, qc):
-                        if 'cyclic' in c_ or 'oof' in c_:
-                            continue
-                        if a != p_:
-                            rep.violation({'kind': 'python predicate changes the answers', 'compiled': a, 'python': p_,
-                                           'ops': scen.ops_json(ops_py), 'ops_compiled': scen.ops_json(ops_all),
-                                           'prolog': [S.program_text(prog)]})
-                            break
-                        if '()' not in a[:6]:
-                            rep.nontriv(a + S.program_text(prog))
-            if i < 2:
-                rep.sample({'prolog': S.program_text(prog), 'python_predicates': [list(p) for p in subset]})
-            if len(rep.violations) >= 3:
-                break
+        par.run_cases(chk.rep, 'harness.checks.c20', 'case', n)
         chk.finish(rule='random programs (cut, ;, ->, \\+, meta-calls) in which a random non-empty subset of the fact predicates is '
                         're-implemented as registered Python generators (explicit / inferred / variadic arity; yield True or '
-                        'False; optionally raising at the j-th row; optionally next to dynamic facts): answers must equal those '
-                        'of the all-compiled program on the real engine and those of the reference; an exception raised inside '
-                        'the function must reach the consumer as that exception with all variables unbound; non-trivial = a '
+                        'False; optionally raising at the j-th row; optionally next to dynamic facts; optionally called before '
+                        'the registration exists), queried through rules and through call/N and findall/3 from the API: answers must '
+                        'equal those of the all-compiled program on the real engine and those of the reference; an exception raised '
+                        'inside the function must reach the consumer as that exception with all variables unbound; non-trivial = a '
                         'query with >= 1 answer; distinct = distinct (program, answers)')
 
 
